@@ -45,6 +45,7 @@ def _init_certs():
     for n, val, san, roles in [('client', 'ok', None, ['operator']), ('client_expired', 'expired', None, ['operator']),
                                ('client_notyet', 'notyet', None, ['operator']), ('client_otherrole', 'ok', None, ['viewer']),
                                ('client_roleless', 'ok', 'client.example', []), ('server', 'ok', 'test.com', []),
+                               ('client_tworoles', 'ok', None, ['operator', 'engineer']),
                                ('server_expired', 'expired', 'test.com', []), ('server_notyet', 'notyet', 'test.com', [])]:
         _reg(f'ss/{n}', f'{o}/ss/{n}_cert.pem', f'{o}/ss/{n}_key.pem', 'self', val, san, roles)
 
@@ -153,6 +154,7 @@ def grid(full):
         ('not-the-configured-cert', 'ss/client', 'ss/server', 'ss/client_otherrole'), ('not-the-configured-cert2', 'repo/entity1', 'repo/entity2', 'ss/client'),
         ('expired', 'ss/client_expired', 'ss/server', 'ss/client_expired'), ('not-yet-valid', 'ss/client_notyet', 'ss/server', 'ss/client_notyet'),
         ('role-less', 'ss/client_roleless', 'ss/server', 'ss/client_roleless'), ('other-role', 'ss/client_otherrole', 'ss/server', 'ss/client_otherrole'),
+        ('two-roles', 'ss/client_tworoles', 'ss/server', 'ss/client_tworoles'),
     ]
     for mn in ('12', '13'):
         for mode, scen in (('ca', server_ca), ('ss', server_ss)):
